@@ -16,8 +16,8 @@ def keyfn(case, res, m):
 
 def run(chk):
     chk.audit(PROPS)
-    n = 120 if chk.tier == 'quick' else 1500
-    core.e1_flow(chk, 'scen_refcount', 'refcount', {'C13'},
+    n = 100 if chk.tier == 'quick' else 1500
+    results = core.e1_flow(chk, 'scen_refcount', 'refcount', {'C13'},
                  lambda rng: scen_refcount.gen_case(rng, chk.tier),
                  n, keyfn=keyfn, sched=False, engine='E4-manager-processes+lean',
                  corpus=scen_refcount.boundary_cases(), escalate_n=60 if chk.tier == 'quick' else 600)
@@ -31,13 +31,28 @@ def run(chk):
         'and a call through every live proxy are checked; the same history and the observed tables are replayed '
         'through Core.run Refcount.step + quiesce by `drv refcount`. non-trivial = >= 2 client processes, >= 3 '
         'different operation kinds, history ran to its end; distinct = distinct (case, event list)')
-    chk.cov['distribution'] = _distribution(chk)
+    chk.cov['distribution'] = _distribution(results)
     chk.trusted += TRUSTED
     chk.assumptions += ASSUMPTIONS
 
 
-def _distribution(chk):
-    return {}
+def _distribution(results):
+    from collections import Counter
+    ops, clients, steps, procs, settle = Counter(), Counter(), Counter(), Counter(), []
+    for case, res in results:
+        for st in case['steps']:
+            ops[st['op']] += 1
+            for so in st.get('sub_ops', []):
+                ops['par/' + so] += 1
+        clients[case['n_clients']] += 1
+        steps[10 * (len(case['steps']) // 10)] += 1
+        procs[case['proc_cls']] += 1
+        settle += [rec['obs']['settle_s'] for rec in res.get('steps', []) if rec.get('obs')]
+    settle.sort()
+    return dict(operations=dict(ops), processes_per_case=dict(clients), steps_per_case_by_10=dict(steps),
+                child_process_class=dict(procs), observations=len(settle),
+                settle_s_median=settle[len(settle) // 2] if settle else None,
+                settle_s_max=settle[-1] if settle else None)
 
 
 TRUSTED = [
